@@ -104,11 +104,16 @@ Definition C05y_mon (tr : list (directive * list obs)) : list viol := c05y_from 
 (* 504 / 505 (per commit; evaluated): a registration that is converted must leave a task that can still be
    dispatched: the task that carries its id, if it is new in this commit, is not already finished.
    504: it is born finished although only ONE completion of its promise ran in the commit (the conversion itself
-        swallowed the wake-up); 505: several completions of that promise ran in the commit and a losing one finished
+        swallowed the wake-up) - unless it is a resume task whose root promise completed in the same commit; 505: several completions of that promise ran in the commit and a losing one finished
         the winner's new task (DESIGN D18, known finding of C08). *)
 Definition t_done (t : task) : bool := (t_state t =? TCompleted) || (t_state t =? TTimedout).
 Definition completions_of (pid : string) (cmds : list command) : nat :=
   List.length (filter (fun c => match c with UpdatePromise u => String.eqb (up_id u) pid | _ => false end) cmds).
+
+(* a resume task whose own root promise has completed as well (e.g. both promises time out in one commit) is rightly
+   finished with it (C08, clause 803); a notification's root is the completed promise itself, so it never is *)
+Definition root_pending (d : db) (root : string) : bool :=
+  match find_promise root d with Some p => p_state p =? Pending | None => false end.
 
 Definition c05w_exec (cmds : list command) (before after : db) : list Z :=
   flat_map (fun c =>
@@ -116,7 +121,8 @@ Definition c05w_exec (cmds : list command) (before after : db) : list Z :=
               else match find (fun t => String.eqb (t_id t) (cb_id c)) (tasks after) with
                    | Some t =>
                      if existsb (fun t0 => String.eqb (t_id t0) (cb_id c)) (tasks before) then []
-                     else if t_done t then (if Nat.leb 2 (completions_of (cb_pid c) cmds) then [505] else [504]) else []
+                     else if t_done t && (String.eqb (m_type (t_mesg t)) "notify" || root_pending after (t_root t))
+                          then (if Nat.leb 2 (completions_of (cb_pid c) cmds) then [505] else [504]) else []
                    | None => []
                    end) (callbacks before).
 
